@@ -6,6 +6,7 @@ pub mod exprgen;
 pub mod fmtcheck;
 pub mod front;
 pub mod layout;
+pub mod loopgen;
 pub mod lsphist;
 pub mod mutate;
 pub mod pipeline;
